@@ -13,7 +13,7 @@
    repaired: detached heap-push goroutines overtaken by shutdown ("fix: heap pushes
    never overtaken...") and bars stranded in width sync after a render error ("fix: a
    render error no longer strands bars..."). *)
-From MPB Require Import Base BaseProofs BarState Container ContainerProofs ContainerLife ContainerProgress ContainerMeasure ContainerMatrix Sync SyncProofs GenChecks.
+From MPB Require Import Base BaseProofs BarState Container ContainerProofs ContainerLife ContainerProgress ContainerMeasure ContainerMatrix Sync SyncProofs GenChecks WaitGroup WaitGroupProofs.
 From MPB.gen Require Import GenApi.
 From Coq Require Import String.
 Open Scope string_scope.
@@ -97,6 +97,37 @@ Theorem C01_service_loops_watch_done :
      ("pState", "manualRefreshListener")]%string = true.
 Proof. exact service_loops_watch_done. Qed.
 Print Assumptions C01_service_loops_watch_done.
+
+(* ---- the counter Progress.Wait blocks on (bar_wait_group.go; WaitGroup.v, tied to the code by the differential wg family) ---- *)
+(* whenever the count is zero after ANY sequence of Add / Done / Wait calls and scheduler steps, nobody sleeps un-notified, and
+   once the notified waiters have run, EVERY Wait call made so far has returned: no wake-up is lost, also when Add races with Wait *)
+Theorem C01_zero_count_releases_every_waiter : forall ops,
+  let g := wg_run wg_init ops in
+  wcount g = 0%Z ->
+  asleep g = [] /\
+  let g' := settle (List.length (woken g)) g in
+  woken g' = [] /\ asleep g' = [] /\ forall t, In (WWait t) ops -> In t (returned g').
+Proof. exact zero_count_releases_every_waiter. Qed.
+Print Assumptions C01_zero_count_releases_every_waiter.
+
+(* a Wait returns only in a state whose count is zero (the count being the sum of the deltas), by the waiter's own step *)
+Theorem C01_wait_returns_only_at_zero : forall g o t,
+  In t (returned (wg_step g o)) -> In t (returned g) \/ (wcount g = 0%Z /\ (o = WWait t \/ o = WResume t)).
+Proof. exact returns_only_at_zero. Qed.
+Print Assumptions C01_wait_returns_only_at_zero.
+
+(* from the source, regenerated on every run: the model's atomic steps are the code's critical sections, the broadcast condition and
+   the re-check loop are the ones modelled *)
+Theorem C01_wait_group_as_modelled :
+  gen_wait_group = [("Add first", "g.mu.Lock()"); ("Wait first", "g.mu.Lock()");
+                    ("Add Broadcast", "if g.n == 0 && g.zero != nil"); ("Wait Wait", "for g.n != 0")]%string.
+Proof. exact wait_group_as_modelled. Qed.
+Print Assumptions C01_wait_group_as_modelled.
+
+Theorem C01_count_is_sum_of_deltas : forall ops g,
+  wcount (wg_run g ops) = (wcount g + fold_right (fun o a => delta o + a) 0 ops)%Z.
+Proof. exact run_count. Qed.
+Print Assumptions C01_count_is_sum_of_deltas.
 
 (* non-vacuity: a state in the middle of a cycle, with a bar popped and not yet rendered *)
 Example C01_nonvacuous :
